@@ -62,7 +62,7 @@ package keeper
 // RollbackMeta: after a cancelled or timed-out update the model returns to its last committed version, or disappears
 // together with its alias if it never had one.
 //@ func (Keeper) RollbackMeta(ctx, dataId)
-//@   requires has(Metadata, dataId) ==> Metadata[dataId].DataId == dataId
+//@   requires has(Metadata, dataId) ==> Metadata[dataId].DataId == dataId && Metadata[dataId].CreatedAt + Metadata[dataId].Duration <= MaxUint64
 //@   requires forall h int :: 0 <= h && h <= MaxUint64 && has(ExpiredData, h) ==> ExpiredData[h].Height == h
 //@   requires [C11.sched.unique] has(Metadata, dataId) ==> forall h int :: 0 <= h && h <= MaxUint64 && has(ExpiredData, h) && contains(ExpiredData[h].Data, dataId) ==> h == u64(Metadata[dataId].CreatedAt + Metadata[dataId].Duration)
 //@   requires [C11.sched.once] has(Metadata, dataId) && has(ExpiredData, u64(Metadata[dataId].CreatedAt + Metadata[dataId].Duration)) ==>
@@ -83,6 +83,7 @@ package keeper
 // CancelOrder: full refund, rollback of the data model, removal of the order record
 //@ func (Keeper) CancelOrder(ctx, orderId) (err)
 //@   requires has(Order, orderId) && has(Metadata, Order[orderId].DataId) ==> Metadata[Order[orderId].DataId].DataId == Order[orderId].DataId
+//@       && Metadata[Order[orderId].DataId].CreatedAt + Metadata[Order[orderId].DataId].Duration <= MaxUint64
 //@   requires forall h int :: 0 <= h && h <= MaxUint64 && has(ExpiredData, h) ==> ExpiredData[h].Height == h
 //@   requires [C11.sched.unique] has(Order, orderId) && has(Metadata, Order[orderId].DataId) ==> forall h int :: 0 <= h && h <= MaxUint64 && has(ExpiredData, h) && contains(ExpiredData[h].Data, Order[orderId].DataId)
 //@         ==> h == u64(Metadata[Order[orderId].DataId].CreatedAt + Metadata[Order[orderId].DataId].Duration)
@@ -134,7 +135,7 @@ package keeper
 //@   requires forall c string :: has(PledgeDebt, c) ==> PledgeDebt[c].Sp == c && PledgeDebt[c].Debt.Amount >= 0
 //@   requires forall i int :: 0 <= i && i <= MaxUint64 && has(Shard, i) ==> Shard[i].Id == i && Shard[i].Pledge.Amount >= 0
 //@   requires forall c string :: has(DidBalances, c) ==> DidBalances[c].Did == c
-//@   requires forall c string :: has(Metadata, c) ==> Metadata[c].DataId == c
+//@   requires forall c string :: has(Metadata, c) ==> Metadata[c].DataId == c && Metadata[c].CreatedAt + Metadata[c].Duration <= MaxUint64
 //@   requires forall h int :: 0 <= h && h <= MaxUint64 && has(ExpiredData, h) ==> ExpiredData[h].Height == h
 //@   requires [C11.sched.once] has(Metadata, order.DataId) && has(ExpiredData, u64(Metadata[order.DataId].CreatedAt + Metadata[order.DataId].Duration)) ==>
 //@       forall i int, j int :: 0 <= i && i < j && j < len(ExpiredData[u64(Metadata[order.DataId].CreatedAt + Metadata[order.DataId].Duration)].Data)
